@@ -26,7 +26,8 @@ THEOREMS = [P + t for t in (
     "invN_calls_partial", "invD_calls_from_empty",
     "rename_names_counterexample", "nsAddInterface_names_counterexample", "nsAddInterface_sp_counterexample",
     "addLink_sp_counterexample", "connect_names_counterexample", "setName_names_counterexample", "setType_sp_counterexample", "peer_self_names_counterexample",
-    "setPropsNT_eq_setProps")] + ["FimVerif.Topo." + t for t in (
+    "setPropsNT_eq_setProps", "svcNew_top_name_unused", "addService_name_unused", "addPortMirror_name_unused",
+    "nodeAddService_topwide_counterexample")] + ["FimVerif.Topo." + t for t in (
     "invS_grow", "invD_grow", "invD_dropNode", "invS_mapNodes", "namesOk_mapNodes", "invS_addNode", "invS_nsAddInterface", "invS_addLink",
     "invS_connect", "invS_addComponent", "invS_addStorage", "invS_addService", "invS_nodeAddService", "invD_addService",
     "invD_nodeAddService", "invD_addComponent", "svcLoop_ok", "svcLoop_invD", "catalog_ok", "invS_addFacility", "invS_addSwitch",
@@ -46,12 +47,16 @@ TRUSTED_BASE = [
     "gen/rules.py: regexes that read the vocabularies out of graph_validation_rules.json and pin the list of rule kinds; enum members by import",
     "gen/viewdict.py: ast reading of class ViewOnlyDict (one base, defined methods, __init__ shape) + behaviour probe of every in-place "
     "method of dict on an instance and of the sequence type of every interface_list",
-    "the Python transliteration of the 11 non-cardinality rules + containment/name-scope rules in props/c07.py (the oracle)",
+    "the Python transliteration of the 11 non-cardinality rules + containment/name-scope rules in props/c07.py (the oracle); the scope "
+    "'NetworkService-topology-wide' (a topology-level service shares its name with no other service, owned ones included) is the oracle's and "
+    "TopSvcWide's reading of what Topology.network_services / remove_network_service(name) need - it is not a conjunct of Topo.Inv",
     "post-state / atomicity lemmas of the C09 development (Proofs/Lemmas/TopoAtomic*.lean: ifaceNew_cases, linkNew_cases, connect_spec, "
     "svcNew_atomic, addFacility_fs, addSwitch_fs, peer_fs) - proved, imported read-only",
 ]
 ASSUMPTIONS = [
-    "NetworkX backend, single thread, ASCII names; uuid4 freshness (guards FreshTwo / FreshFromC / PeerGuard in CoveredS / CoveredD)",
+    "both in-memory NetworkX backends (the default shared store and, for about half of every history stream and every scripted "
+    "history, the one-graph-per-model store selected with importer=NetworkXGraphImporterDisjoint(); the model is the same - the store "
+    "must not show), single thread, ASCII names; uuid4 freshness (guards FreshTwo / FreshFromC / PeerGuard in CoveredS / CoveredD)",
     "the two cardinality rules (L2PTP/L2Path connect two, PortMirror connects one) constrain finished slices (C10) and are not demanded after every call",
     "PARTIAL: (1) the downward-closed invariant InvD (ids distinct, no dangling edge, vocabularies, containment structure, AT MOST one "
     "owner / parent / peer) is proved for every history over ALL 30 building calls of both alphabets (invD_calls_partial), any state, any "
@@ -70,8 +75,10 @@ ASSUMPTIONS = [
     "views: the dictionary views are modelled as objects over the four top-level listings; the per-element views (components, interfaces, "
     "network_services, interface_list of nodes / components / services / links / ports) are checked by the oracle only",
 ]
-RULE = ("call histories over both flavours (caller-supplied and generated ids) and both alphabets, mostly valid calls with 15% rejected ones "
-        "plus taken names / taken ids; scripted histories interleaving additions and removals around sub-interfaces, peerings and mirrors; "
+RULE = ("call histories over both flavours (caller-supplied and generated ids), both in-memory stores and both alphabets, mostly valid calls "
+        "with 15% rejected ones plus taken names / taken ids; 35% of the caller-supplied names of creating / renaming calls (and, in the oracle "
+        "streams, of set_property(name=)) are drawn from the names the model already holds - any class and scope, library-derived names of owned "
+        "services, ports and links included; every call that is not a removal must leave every other element and relationship in place; scripted histories interleaving additions and removals around sub-interfaces, peerings and mirrors; "
         "after every call all rules are evaluated on the graph extracted from the store, every few calls all views (topology and per element) "
         "are compared with the graph and every in-place method of dict / list is tried on them; non-trivial = the history reaches >= 1 "
         "service with >= 1 connected interface; distinct by op-kind sequence hash")
@@ -95,6 +102,8 @@ def py_verdicts(snap):
     """the oracle's verdict per conjunct of Topo.Inv on a snapshot of the implementation's graph"""
     v = {c: True for c in CONJUNCTS}
     for rule, cls, _ in check_rules(snap):
+        if rule == "names-unique" and cls not in NAME_CONJ:
+            continue                # NetworkService-topology-wide: not a conjunct of Topo.Inv (Lean: TopSvcWide, addService_name_unused)
         v[NAME_CONJ[cls] if rule == "names-unique" else CONJ[rule]] = False
     v["inv"] = all(v.values())
     return v
@@ -200,6 +209,14 @@ def check_rules(snap):
     d = dup(top)
     if d:
         out.append(("names-unique", "NetworkService-top-level", d))
+    # a topology-level service is addressed by its name among ALL services of the topology (the network_services view is keyed by
+    # name over every service, remove_network_service(name) looks the name up over every service, and add_network_service refuses a
+    # name any service carries): its name is not the name of an owned service either
+    owned = {n[2] for n in nodes if n[0] == "NetworkService"
+             and [x for x, rel in adj.get(key(n), []) if rel == "has"]}
+    w = sorted(set(top) & owned)
+    if w:
+        out.append(("names-unique", "NetworkService-topology-wide", w))
     return out
 
 
@@ -522,6 +539,15 @@ def run_and_check(fl, ops_or_gen, res, label, nmax=None, views_every=3, elements
         res.evaluations += 1
         res.count("op:" + st["op"]["op"])
         case = {"flavour": fl, "ops": list(ops_done) if script is None else script[:script.index(st["op"]) + 1], "label": label}
+        res.count("backend:" + ("disjoint" if fl.endswith("+d") else "shared"))
+        if "collide" in st["op"]:
+            res.count("collide:%s:%s:%s" % (st["op"]["collide"], st["op"]["op"], st["outcome"][0] if st["outcome"][0] == "ok" else st["outcome"][1]))
+        lost = lost_elements(st)
+        if lost:
+            # the model holds exactly what the calls built: a call that adds / changes one element leaves every other one in place
+            res.violation("C07:lost-element:%s:%s" % (lost[0][0] if isinstance(lost[0][0], str) else "edge", st["op"]["op"]),
+                          "after %s an element that was added and never removed is no longer in the model" % st["op"]["op"], case,
+                          expected="every element and relationship of the model before the call", observed=lost[:6])
         if last[0] is None or last[0][0] is not st["before"] and last[0][0] != st["before"]:
             last[0] = (st["before"], check_rules(st["before"]))
         before = {(r, c) for r, c, _ in last[0][1]}
@@ -541,7 +567,25 @@ def run_and_check(fl, ops_or_gen, res, label, nmax=None, views_every=3, elements
     return steps
 
 
-def history_gen(rng, fault, ext):
+def stream_flavour(i):
+    """flavour of the i-th random history: substrate every fourth, and half of each on the one-graph-per-model store ('+d')"""
+    return ("exp" if i % 4 else "sub") + ("+d" if (i % 4 in (1, 2) or i % 8 == 0) else "")
+
+
+REMOVING = ("remove", "node_remove", "ns_remove", "disconnect", "unpeer", "prune")
+
+
+def lost_elements(st):
+    """elements / relationships of the model before a call that is not a removing one and that returned, which are gone after it"""
+    if st["outcome"][0] != "ok" or st["op"]["op"].startswith(REMOVING):
+        return []
+    an = {(n[0], n[1]) for n in st["after"]["nodes"]}
+    ae = {json.dumps(e) for e in st["after"]["edges"]}
+    return [list(n[:4]) for n in st["before"]["nodes"] if (n[0], n[1]) not in an] + \
+        [e for e in st["before"]["edges"] if json.dumps(e) not in ae]
+
+
+def history_gen(rng, fault, ext, set_name=False):
     """op generator for run_history: lib_topo's menu (with the second alphabet when `ext`), plus - with small probability -
     the adversarial variants the shared generator never draws: a name that is already taken by a sibling (rename excepted:
     known finding), an id that is already in the model, a removal right after the creation"""
@@ -575,7 +619,9 @@ def history_gen(rng, fault, ext):
             ids = [h.obj.node_id for h in sess.handles.values() if sess.alive(h)]
             if ids:
                 op = dict(op, nid=rng.choice(ids), fault="c07:taken-id")
-        return op
+        # caller-supplied names / ids drawn from what the model already holds, ANY class and scope (names the library derived
+        # for owned services, ports and links included): the guards of one call against the elements other calls created
+        return T.collide(rng, sess, op, p_name=0.35, p_id=0.05, set_name=set_name)
     return nxt
 
 
@@ -627,6 +673,42 @@ def deterministic_cases():
         {"op": "add_node", "name": "fx", "site": "RENC", "ntype": "VM", "kw": []},
         {"op": "add_facility", "name": "n1", "site": "RENC", "kw": []}]))
     out.append(("multisite-type", "exp", base + [{"op": "add_service", "name": "ms", "nstype": "L2Multisite", "ifs": ["h3", "h6"], "kw": []}]))
+    # rename to the name of a sibling, on every kind of element and in every scope (no guard at all: known findings), and the
+    # one-sided guard between topology-level and owned services: a topology-level service is refused the name of ANY service, but
+    # an owned service (explicitly named, or named by the library: '<switch>-ns', '<facility>-ns', '<node>-<component>-l2ovs') is
+    # only checked against the services of its owner
+    for tag, h, nm in (("link", "h13", "l1"), ("component", "h8", "nic1"), ("node-service", "h15", "nsa"), ("top-service", "h11", "s1"),
+                       ("interface", "h17", "ia"), ("top-service-to-owned-name", "h11", "n1-nic1-l2ovs")):
+        out.append(("rename-to-taken/" + tag, "exp", named_pre() + [
+            {"op": "ns_add_interface", "svc": "h14", "name": "ia", "itype": "TrunkPort", "kw": []},          # h16
+            {"op": "ns_add_interface", "svc": "h14", "name": "ib", "itype": "TrunkPort", "kw": []},          # h17
+            {"op": "rename", "h": h, "name": nm}]))
+    top = lambda n: {"op": "add_service", "name": n, "nstype": "L2Bridge", "ifs": [], "kw": []}
+    out.append(("owned-service-named-like-top-level/node_add_service", "exp", base + [
+        top("nsx"), {"op": "node_add_service", "parent": "h0", "name": "nsx", "nstype": "OVS", "kw": []}]))
+    out.append(("owned-service-named-like-top-level/add_switch", "exp", base + [
+        top("sw9-ns"), {"op": "add_switch", "name": "sw9", "site": "RENC", "nports": 1}]))
+    out.append(("owned-service-named-like-top-level/add_facility", "exp", base + [
+        top("fac9-ns"), {"op": "add_facility", "name": "fac9", "site": "RENC", "kw": []}]))
+    out.append(("owned-service-named-like-top-level/add_component", "exp", base + [
+        top("n2-nicz-l2ovs"), {"op": "add_component", "parent": "h1", "name": "nicz", "ctype": "SmartNIC", "model": "ConnectX-6", "kw": []}]))
+    out.append(("owned-service-named-like-top-level/add_component_mt", "exp", base + [
+        top("n2-nicz-l2ovs"), {"op": "add_component_mt", "parent": "h1", "name": "nicz", "model_type": "SmartNIC_ConnectX_6", "kw": []}]))
+    # names the library will DERIVE later (link '<node>-<port>-link' / ServicePort '<node>-<port>' of a connection, '<a>-<b>-link' of a
+    # peering) given by the caller to an earlier element: the deriving call does not look (known findings, one root cause)
+    lk = {"op": "add_link", "name": "n1-shnic-p1-link", "ltype": "L2Path", "ifs": ["h4", "h6"], "kw": []}
+    out.append(("derived-name-taken/link/add_service", "exp", base + [lk, {"op": "add_service", "name": "s1", "nstype": "L2Bridge", "ifs": ["h9"], "kw": []}]))
+    out.append(("derived-name-taken/link/connect", "exp", base + [lk, top("s1"), {"op": "connect", "svc": "h11", "if": "h9"}]))
+    out.append(("derived-name-taken/port/connect", "exp", base + [
+        top("s1"), {"op": "ns_add_interface", "svc": "h10", "name": "n1-shnic-p1", "itype": "TrunkPort", "kw": []}, {"op": "connect", "svc": "h10", "if": "h9"}]))
+    out.append(("derived-name-taken/link/peer", "exp", base + [
+        dict(lk, name="sa-sb-link"), {"op": "add_service", "name": "sa", "nstype": "L3VPN", "ifs": [], "kw": []},
+        {"op": "add_service", "name": "sb", "nstype": "L3VPN", "ifs": [], "kw": []}, {"op": "peer", "svc": "h11", "other": "h12", "kw": []}]))
+    # ... and the guarded direction: the name of an owned service (derived or given) for a topology-level service is refused
+    out.append(("top-level-service-named-like-owned", "exp", named_pre() + [
+        {"op": "add_switch", "name": "sw9", "site": "RENC", "nports": 1},
+        top("sw9-ns"), top("n1-nic1-l2ovs"), top("nsa"), top("s1"),
+        {"op": "add_port_mirror", "name": "n1-shnic-l2ovs", "to": "h9", "from_name": "nic2-p1", "from_vlan": None, "direction": "Both", "kw": []}]))
     out.append(("all-ops", "sub", c09.base_ops("sub") + [
         {"op": "add_switch", "name": "sw1", "nid": "swid", "site": "RENC", "nports": 2},
         {"op": "add_facility", "name": "fac", "nid": "facid", "site": "RENC", "ifs": [["fi0", ["lab", {"vlan": "100"}], ["cap", {"bw": 10}]], ["fi1", ["lab", {"vlan": "101"}], ["cap", {"bw": 10}]]]},
@@ -634,6 +716,17 @@ def deterministic_cases():
         {"op": "remove_link", "name": "l1"}, {"op": "remove_switch", "name": "sw1"}, {"op": "remove_facility", "name": "fac"},
         {"op": "remove_component", "parent": "h0", "name": "nic1"}, {"op": "remove_node", "name": "n2"}]))
     return out
+
+
+def named_pre():
+    """base + two topology-level services (h10 s1 connected to h3, h11 s2), two links (h12 l1, h13 l2), two services of n1 (h14 nsa, h15 nsb)"""
+    return c09.base_ops("exp") + [
+        {"op": "add_service", "name": "s1", "nstype": "L2Bridge", "ifs": ["h3"], "kw": []},
+        {"op": "add_service", "name": "s2", "nstype": "L2Bridge", "ifs": [], "kw": []},
+        {"op": "add_link", "name": "l1", "ltype": "L2Path", "ifs": ["h4", "h6"], "kw": []},
+        {"op": "add_link", "name": "l2", "ltype": "L2Path", "ifs": ["h7", "h9"], "kw": []},
+        {"op": "node_add_service", "parent": "h0", "name": "nsa", "nstype": "OVS", "kw": []},
+        {"op": "node_add_service", "parent": "h0", "name": "nsb", "nstype": "OVS", "kw": []}]
 
 
 def interleaved_cases():
@@ -754,6 +847,10 @@ def retype_cases():
             {"op": "ns_add_interface", "svc": "h10", "name": "ia", "itype": "TrunkPort", "kw": []},                  # h11
             {"op": "ns_add_interface", "svc": "h10", "name": "ib", "itype": "TrunkPort", "kw": []},                  # h12
             {"op": "set_props", "h": "h12", "single": False, "kw": [["name", ["str", "ia"]], ["capacities", ["cap", {"bw": 25}]]]}]),
+        ("set-name-to-taken/link", "exp", named_pre() + [{"op": "set_props", "h": "h13", "kw": [["name", ["str", "l1"]]]}]),
+        ("set-name-to-taken/node-service", "exp", named_pre() + [{"op": "set_props", "h": "h15", "kw": [["name", ["str", "nsa"]]]}]),
+        ("set-name-to-taken/top-service", "exp", named_pre() + [{"op": "set_props", "h": "h11", "kw": [["name", ["str", "s1"]]]}]),
+        ("set-name-to-taken/top-service-to-owned-name", "exp", named_pre() + [{"op": "set_props", "h": "h11", "kw": [["name", ["str", "n1-nic1-l2ovs"]]]}]),
         ("set-type/service-port", "exp", base + [{"op": "set_props", "h": "h3", "kw": [["type", ["enum", "InterfaceType", "ServicePort"]]]}]),
         ("set-type/facility-and-back", "exp", base + [
             {"op": "set_props", "h": "h1", "kw": [["type", ["enum", "NodeType", "Facility"]]]},
@@ -780,11 +877,12 @@ def correspondence(ctx, res):
             names = [n[2] for n in st["after"]["nodes"] if n[0] in ("NetworkNode", "Link", "NetworkService")]
             if len(set(names)) == len(names):          # a name-keyed dictionary over same-named elements: known findings, not modelled
                 st["viewcalls"] = py_view_calls(sess.topo)
-    for name, fl, ops in corpus_cases() + deterministic_cases() + interleaved_cases():
-        hs.append(c09.run_history(fl, scripted(ops), on_step=grab))
+    for j, (name, fl, ops) in enumerate(corpus_cases() + deterministic_cases() + interleaved_cases()):
+        # every scripted history on both in-memory stores: here the odd ones on the disjoint store, in the oracle the even ones
+        hs.append(c09.run_history(fl + ("+d" if j % 2 == 1 and "+" not in fl else ""), scripted(ops), on_step=grab))
     n = ctx.scale(20, 110)
     for i in range(n):
-        fl = "exp" if i % 4 else "sub"
+        fl = stream_flavour(i)
         # every second history also draws from the second alphabet (sub-interfaces, peer/unpeer, port mirror, model_type=, prune)
         hs.append(c09.run_history(fl, history_gen(ctx.sub_rng("c07corr/%d" % i), 0.15, ext=(i % 2 == 1)), nmax=ctx.scale(25, 40), on_step=grab))
     c09.compare_with_model(hs, res)
@@ -804,7 +902,7 @@ def correspondence(ctx, res):
                 lines.append(T.lean_line(st["line"]))
                 want.append(None)
                 lines.append(json.dumps({"op": "inv"}))
-                want.append(("inv", py_verdicts(st["after"]), {"ops": [x["op"] for x in h[:i + 1]], "flavour": st["line"]["fl"]}))
+                want.append(("inv", py_verdicts(st["after"]), {"ops": [x["op"] for x in h[:i + 1]], "flavour": st.get("flavour", st["line"]["fl"])}))
                 for kind, (k0, rows) in (st.get("viewcalls") or {}).items():
                     lines.append(json.dumps({"op": "view_calls", "view": kind, "calls": view_call_list(k0)}))
                     want.append(("viewcalls", rows, {"view": kind, "key": k0, "ops": [x["op"] for x in h[:i + 1]]}))
@@ -886,11 +984,11 @@ def correspondence(ctx, res):
 # --------------------------------------------------------------------------
 # sub-interfaces (add_child_interface / remove_child_interface are not in the Lean model): oracle only, directly on the API
 
-def child_history(rng, nsteps, record):
+def child_history(rng, nsteps, record, flavour="exp"):
     """Build a small slice whose dedicated ports carry sub-interfaces, connect some of them, then remove carriers.
     `record(call, topo)` is called after every building call.  Every choice comes from `rng`; returns the list of calls."""
     import fim.user as f
-    topo = T.new_topology("exp")
+    topo = T.new_topology(flavour)
     calls = []
 
     def did(call):
@@ -977,26 +1075,39 @@ def oracle_children(ctx, res, n):
                               {"children": True, "stream": i, "calls": calls}, observed=detail)
             if any(n[3] == "SubInterface" for n in snap["nodes"]):
                 res.nontrivial.add("children:" + core.sha(canon([c[0] for c in calls])))
-        child_history(rng, ctx.scale(8, 14), record)
+        child_history(rng, ctx.scale(8, 14), record, flavour="exp+d" if i % 2 else "exp")
 
 
 def oracle(ctx, res, budget=None):
+    both = ctx.scale(False, True)           # thorough: every scripted history on both stores; quick: alternating (the other half runs
+    j = 0                                   # on the other store in correspondence())
+
+    def backends(fl):
+        nonlocal j
+        j += 1
+        if "+" in fl:
+            return [fl]
+        return [fl, fl + "+d"] if both else [fl + ("+d" if j % 2 == 1 else "")]
     for name, fl, ops in corpus_cases():
-        run_and_check(fl, ops, res, "corpus:" + name, views_every=1)
+        for f in backends(fl):
+            run_and_check(f, ops, res, "corpus:" + name, views_every=1)
     for name, fl, ops in deterministic_cases():
-        run_and_check(fl, ops, res, name, views_every=1)
+        for f in backends(fl):
+            run_and_check(f, ops, res, name, views_every=1)
     for name, fl, ops in retype_cases():
-        run_and_check(fl, ops, res, name, views_every=1)
+        for f in backends(fl):
+            run_and_check(f, ops, res, name, views_every=1)
     for name, fl, ops in interleaved_cases():
-        run_and_check(fl, ops, res, name, views_every=ctx.scale(3, 1), elements_every=ctx.scale(2, 1))
+        for f in backends(fl):
+            run_and_check(f, ops, res, name, views_every=ctx.scale(3, 1), elements_every=ctx.scale(2, 1))
     if budget is None:
-        for fl in ctx.scale(("exp",), ("exp", "sub")):         # C09's scripted failing calls of the second alphabet: the rules hold after each of them too
+        for fl in ctx.scale(("exp",), ("exp", "sub", "exp+d", "sub+d")):         # C09's scripted failing calls of the second alphabet: the rules hold after each of them too
             for tag, ops in c09.extension_cases(fl, c09.base_ops(fl)):
                 run_and_check(fl, ops, res, "c09ext:" + tag, views_every=ctx.scale(7, 2))
     n = budget or ctx.scale(18, 150)
     for i in range(n):
-        fl = "exp" if i % 4 else "sub"
-        run_and_check(fl, history_gen(ctx.sub_rng("c07oracle/%d" % i), 0.15, ext=(i % 3 != 0)), res, "random", nmax=ctx.scale(25, 40),
+        fl = stream_flavour(i)
+        run_and_check(fl, history_gen(ctx.sub_rng("c07oracle/%d" % i), 0.15, ext=(i % 3 != 0), set_name=True), res, "random", nmax=ctx.scale(25, 40),
                       views_every=ctx.scale(4, 3))
     oracle_children(ctx, res, ctx.scale(12, 80) if budget is None else budget // 4)
     res.sample({"oracle": "rules of graph_validation_rules.json (minus the two slice cardinality rules) + containment + name scopes on the "
